@@ -49,6 +49,7 @@ def mutants(prog):
         ("subdivide: falsy dims treated as None", B, "subdivide_cubic_bspline", "if dims is None:", "if not dims:", "T3.subdivide"),
         ("ffd update: spline evaluated before the parameters are refreshed", S, "FreeFormDeformation.update", "super().update()\n    u = self.evaluate_spline()\n    self.register_buffer('u', u, persistent=False)\n    return self", "u = self.evaluate_spline()\n    self.register_buffer('u', u, persistent=False)\n    return super().update()", "T6x."),
         ("conv1d: transposed convolution with mirrored weights", "deepali.core.image", "conv1d", "weight = kernel.expand(groups, 1, kernel.shape[-1])", "weight = (kernel.flip(-1) if transpose else kernel).expand(groups, 1, kernel.shape[-1])", "T3.evaluate"),
+        ("evaluate: transposed path refuses derivatives only when given as an int", B, "evaluate_cubic_bspline", "isinstance(derivative, int) and derivative != 0 or (isinstance(derivative, Sequence) and any((order != 0 for order in derivative)))", "isinstance(derivative, int) and derivative != 0", "T3.evaluate"),
     ]
     for name, mod, fn, old, new, expect in specs:
         ov = source_sub(prog, mod, fn, old, new)
